@@ -7,7 +7,7 @@ CONSTANTS
   RemoveOnClose = TRUE
   ReprepareFresh = TRUE
   ClearsOnlyOwn = TRUE
-  KeepsEmptyLong = TRUE
+  KeepsEmptyLong = FALSE
 INVARIANTS P_Registry P_Agree
 VIEW view
 CHECK_DEADLOCK FALSE
